@@ -516,7 +516,7 @@ func combos(n, k int, f func(idx []int)) {
 
 func c07Run(c *mc.Ctx) {
 	th := c.Thorough()
-	maxSet := 3
+	maxSet := 4
 	alpha := func(slots int) []int {
 		if slots <= 3 {
 			r := make([]int, slots)
